@@ -143,7 +143,16 @@ func buildAzWorld(r azRow, seed int64) (*azWorld, error) {
 	if kt == "rsa" {
 		leafKey = pki.RSAKey(3)
 	}
-	az.leaf = issuerOfLeaf.Leaf(pki.LeafOpts{CN: "c04 leaf", Serial: big.NewInt(7), CDP: []string{az.org.URL + pathAz}, Key: leafKey})
+	leafOpts := pki.LeafOpts{CN: "c04 leaf", Serial: big.NewInt(7), CDP: []string{az.org.URL + pathAz}, Key: leafKey}
+	if r.Signer == "endEntity" {
+		// the end-entity certificate with the key usage of the row: none at all, digitalSignature only, or digitalSignature + cRLSign
+		_, no := kuOf(r.Ku)
+		leafOpts.NoKeyUsage = no
+		if r.Ku == "crlSign" {
+			leafOpts.KeyUsage = x509.KeyUsageDigitalSignature | x509.KeyUsageCRLSign
+		}
+	}
+	az.leaf = issuerOfLeaf.Leaf(leafOpts)
 	az.chain = pki.Chain(az.leaf.Cert, chainCAs...)
 	wc := world.Cfg{Mode: "crl_only", Storage: "memory", Sig: "verify", Fetch: "fetch_actively", CdpStrict: true, Interval: "1h"}
 	w, err := world.New(wc)
